@@ -130,6 +130,14 @@ def real_stream(chk, rng, n, stats):
             tgt = pl.replace("ROOT/", "").replace("ROOT", "") if pl.startswith("ROOT") else os.path.normpath(os.path.join(os.path.dirname(p), pl))
             return tgt in ("", ".") or inside(os.path.dirname(p), tgt) or tgt.startswith("..")
         spec = [t for t in spec if not leads_up(*t)]       # a link to an ancestor makes --recursive gathering run away (not this property)
+        if rng.random() < 0.35:
+            # F32's situation, made frequent: a link below an input directory that leads to the directory 'out' outside it
+            d = rng.choice(inputs)
+            nm = rng.choice(["zl", "a", "1", "k"])
+            if not any(p == d + "/" + nm for p, _, _ in spec):
+                spec.append((d + "/" + nm, "l", rng.choice(["ROOT/out", "../" * (d.count("/") + 1) + "out"])))
+                if mode == "path" and rng.random() < 0.6:
+                    tpl = "moved/%Name()"      # the destination lies inside: only the test on the source's real directory can refuse
         with Sandbox() as root:
             pipe.materialise(root, spec)
             snap0, ids = pipe.id_map(root)
@@ -181,15 +189,21 @@ def real_stream(chk, rng, n, stats):
                 ins.append(link_dirs.get(a, a))
             else:
                 ins.append(os.path.dirname(a))
-        # F32 (recorded): path mode + --recursive + a symbolic link below an input directory that leads to a directory outside it
-        f32 = None
-        if mode == "path" and "-r" in argv and any(
-                not any(dd in ("", ".") or inside(tgt, dd) for dd in ins)
-                for l, tgt in dirlinks.items() if any(inside(l, dd) for dd in ins)):
-            f32 = "F32"
+        # the situation of F32 (fixed): path mode + --recursive + a symbolic link below an input directory that leads to a
+        # directory outside it -- recursive gathering descends the link and the pipeline has to refuse the files behind it
+        outward = [l for l, tgt in dirlinks.items() if any(inside(l, dd) for dd in ins)
+                   and not any(dd in ("", ".") or inside(tgt, dd) for dd in ins)]
+        if outward and mode == "path" and "-r" in argv:
+            stats["real_stream_outward_link_path_recursive"] = stats.get("real_stream_outward_link_path_recursive", 0) + 1
+            if res.status == 1:
+                stats["real_stream_outward_link_status_1"] = stats.get("real_stream_outward_link_status_1", 0) + 1
+            if tpl == "moved/%Name()":
+                stats["real_stream_outward_link_destination_inside"] = stats.get("real_stream_outward_link_destination_inside", 0) + 1
+            if "which is outside of the input directory" in (res.stderr or "") + (res.stdout or ""):
+                stats["real_stream_source_outside_refused"] = stats.get("real_stream_source_outside_refused", 0) + 1
         for p in set(init) | set(fin):
             if init.get(p) != fin.get(p) and not any(d in ("", ".") or inside(p, d) for d in ins):
-                chk.oracle_fail("the run changed %r, which is outside every input directory" % p, case, finding=f32)
+                chk.oracle_fail("the run changed %r, which is outside every input directory" % p, case)
                 break
         else:
             if mode == "directory":
@@ -213,7 +227,10 @@ def run(chk):
     rng = chk.rng
     quick = chk.tier == "quick"
     n_scn = 1000 if quick else 40000
-    stats = {"confined_calls": 0, "escaping_destinations": 0, "invalid_names": 0}
+    stats = {"confined_calls": 0, "escaping_destinations": 0, "invalid_names": 0,
+             "real_stream_outward_link_path_recursive": 0, "real_stream_outward_link_status_1": 0,
+             "real_stream_outward_link_destination_inside": 0,
+             "real_stream_source_outside_refused": 0}
     scns = []
     cdir = os.path.join(common.VERIF, "corpus", "C06")
     if os.path.isdir(cdir):
@@ -245,7 +262,9 @@ def run(chk):
         "absolute paths inside and outside, './x', 'x/../y', 'a//b', 'new/..', '', '.', names with separators; all modes, strategies, "
         "dry-run; through the real tempren.cli.main() with a snapshot after every filesystem call: every call may change only entries "
         "inside the input directory it was issued for; escaping destinations and invalid names end with a non-zero status; name mode "
-        "keeps every parent; directory mode keeps (name, parent inode) of every non-directory; plus %d filesystem-primitive cases" % nprim)
+        "keeps every parent; directory mode keeps (name, parent inode) of every non-directory; a real-gatherer stream (no plan injection) "
+        "whose trees often carry a link below an input directory that leads to the directory 'out' outside it (path mode with -r descends "
+        "it: nothing outside any input directory may change, counted in real_stream_*); plus %d filesystem-primitive cases" % nprim)
     d = pipe.stats_of(scns, obss)
     d.update(stats)
     chk.coverage["input_distribution"] = d
